@@ -419,3 +419,7 @@ Section Importer.
            end
     end.
 End Importer.
+
+(* every stored row's bin agrees with its coordinates (C12: "the bin stored with every imported feature equals bins(start, end)";
+   the standing hypothesis of the C06 theorems about bin pre-filters) *)
+Definition bins_ok (st : ist) : Prop := forall r, In r (s_rows st) -> bin_consistent r = true.
